@@ -1259,6 +1259,11 @@ def gen_read_case(rng):
         toks = [{"k": "n", "t": rng.choice(["2", "4", "10"])}, {"k": "m", "t": rng.choice(["0.5m", "2.5M", "1e1m"])},
                 {"k": "n", "t": "3"}]
         return {"card": "surf", "toks": toks}
+    if q < 0.105:
+        # a jump over nothing in front of a shortcut
+        toks = [{"k": "n", "t": rng.choice(["1", "2.5"])}, {"k": "j", "t": rng.choice(["0j", "0J"])},
+                {"k": "r", "t": rng.choice(["r", "2r"])}]
+        return {"card": rng.choice(["e", "surf"]), "toks": toks}
     if q < 0.2:
         toks = gen_tokens(rng, allow_m=True, errors=0.0, max_groups=4)
         return {"card": "surf", "toks": toks}
@@ -1757,9 +1762,9 @@ def replay(ctx, path):
 def run(ctx):
     quick = ctx.tier == "quick"
     n_exp = 700 if quick else 20000
-    n_bare = 900 if quick else 40000
+    n_bare = 800 if quick else 40000
     n_sweep = 22 if quick else 700
-    n_carrier = 170 if quick else 5000
+    n_carrier = 150 if quick else 5000
     n_read = 500 if quick else 12000
     n_direct = 120 if quick else 3000
     ctx.prove()
